@@ -23,15 +23,34 @@ type SrvReqOps interface {
 
 // Respond to the request with Rerror message
 func (req *SrvReq) RespondError(err interface{}) {
+	var ename string
+	ecode := uint32(EIO)
 	switch e := err.(type) {
 	case *Error:
-		_ = PackRerror(req.Rc, e.Error(), uint32(e.Errornum), req.Conn.Dotu)
+		ename, ecode = e.Error(), uint32(e.Errornum)
 	case error:
-		_ = PackRerror(req.Rc, e.Error(), uint32(EIO), req.Conn.Dotu)
+		ename = e.Error()
 	default:
-		_ = PackRerror(req.Rc, fmt.Sprintf("%v", e), uint32(EIO), req.Conn.Dotu)
+		ename = fmt.Sprintf("%v", e)
 	}
 
+	/* the message has to fit in the negotiated msize, cut the text if needed */
+	max := int(req.Conn.Msize)
+	if len(req.Rc.Buf) < max {
+		max = len(req.Rc.Buf)
+	}
+	max -= 4 + 1 + 2 + 2 /* size[4] id[1] tag[2] ename[s] */
+	if req.Conn.Dotu {
+		max -= 4 /* ecode[4] */
+	}
+	if *Akaros {
+		max -= 5 /* "%04X " prefix added by PackRerror */
+	}
+	if max >= 0 && len(ename) > max {
+		ename = ename[0:max]
+	}
+
+	_ = PackRerror(req.Rc, ename, ecode, req.Conn.Dotu)
 	req.Respond()
 }
 
